@@ -40,6 +40,8 @@ def harness_env(flavour, extra=None):
         env["TSAN_OPTIONS"] = TSAN_OPTIONS
         env["OMP_TOOL_LIBRARIES"] = "/usr/lib/llvm-14/lib/libarcher.so"
         env["ARCHER_OPTIONS"] = "verbose=0"
+        env["KMP_BLOCKTIME"] = "0"  # no spin-waiting: the machine may be oversubscribed
+        env["OMP_WAIT_POLICY"] = "passive"
         env.pop("OMP_NUM_THREADS", None)
     if extra:
         env.update(extra)
@@ -82,49 +84,47 @@ def strip_fn(fn):
 
 
 def crash_key(stderr_text, returncode):
-    """(kind, key, excerpt) from the stderr of a dead worker."""
-    kind = None
-    m = re.search(r"ERROR: AddressSanitizer: ([\w-]+)", stderr_text)
-    if m:
-        kind = "asan-" + m.group(1)
-    if kind is None:
-        m = re.search(r"^(\S+?):\d+:\d+: runtime error: (.+)$", stderr_text, re.M)
+    """(kind, key, excerpt) from the stderr of a dead worker. Advisory (recovering) UBSan reports that precede the
+    fatal event are skipped: kind and frames are taken from the fatal report only."""
+    lines = stderr_text.splitlines()
+    start, kind = None, None
+    for i, l in enumerate(lines):
+        m = re.search(r"ERROR: (\w+Sanitizer): ([\w-]+)", l)
         if m:
-            what = m.group(2)
-            what = re.sub(r"-?\d+(\.\d+)?(e[+-]?\d+)?", "N", what)
+            if m.group(2) == "ABRT":
+                continue  # abort() intercepted: the cause (assertion / terminate) is printed just before
+            start, kind = i, ("asan-" if m.group(1) == "AddressSanitizer" else m.group(1).lower() + "-") + m.group(2)
+            break
+        m = re.match(r"^(\S+?):\d+:\d+: runtime error: (.+)$", l)
+        if m and not _ADV.match(l):
+            what = re.sub(r"-?\d+(\.\d+)?(e[+-]?\d+)?", "N", m.group(2))
             what = re.sub(r"0x[0-9a-f]+", "P", what)
-            kind = "ubsan-" + re.sub(r"[^A-Za-z]+", "-", what).strip("-")[:60]
-    if kind is None:
-        m = re.search(r"Assertion `(.{0,80})", stderr_text)
+            start, kind = i, "ubsan-" + re.sub(r"[^A-Za-z]+", "-", what).strip("-")[:60]
+            break
+        if "Assertion `" in l:
+            start, kind = i, "assert"
+            break
+        m = re.search(r"terminate called after throwing an instance of '([^']+)'", l)
         if m:
-            kind = "assert"
+            start, kind = i, "terminate-" + m.group(1)
+            break
     if kind is None:
-        m = re.search(r"terminate called after throwing an instance of '([^']+)'", stderr_text)
-        if m:
-            kind = "terminate-" + m.group(1)
-    if kind is None:
-        m = re.search(r"ERROR: (\w+Sanitizer): ([\w-]+)", stderr_text)
-        if m:
-            kind = m.group(1).lower() + "-" + m.group(2)
-    if kind is None:
-        kind = "exit-%s" % (returncode,)
-    # first frame whose source is under the repository (not the harness, not system headers)
+        start, kind = 0, "exit-%s" % (returncode,)
+    # first frame (after the fatal line) whose source is under the repository (not the harness, not system headers)
     fn = "?"
-    for line in stderr_text.splitlines():
+    for line in lines[start:]:
         fm = _FRAME.match(line)
         if fm and (fm.group(2).startswith(REPO + "/src") or fm.group(2).startswith(REPO + "/include")
                    or fm.group(2).startswith(REPO + "/3rd-party")):
             fn = strip_fn(fm.group(1))
             break
-    if fn == "?" and kind.startswith("assert"):
-        m = re.search(r"Assertion `(.{0,60})", stderr_text)
+    if kind.startswith("terminate") and fn == "?":
+        m = re.search(r"what\(\):\s*(.{0,60})", stderr_text)
+        if m:
+            fn = re.sub(r"[^A-Za-z0-9_:<>=!&|() .-]", "", m.group(1)).strip()
+    if fn == "?" and kind == "assert":
+        m = re.search(r"Assertion `(.{0,60})", lines[start])
         fn = re.sub(r"[^A-Za-z0-9_:<>=!&|() .-]", "", m.group(1)) if m else "?"
-    lines = stderr_text.splitlines()
-    start = 0
-    for i, l in enumerate(lines):
-        if "ERROR:" in l or "runtime error" in l or "Assertion" in l or "terminate called" in l:
-            start = i
-            break
     excerpt = "\n".join(lines[start:start + 30])
     return kind, "crash:%s:%s" % (kind, fn), excerpt
 
@@ -251,6 +251,9 @@ def run_check(pid, cfg, tier, seed, replay=None):
     os.makedirs(rundir, exist_ok=True)
     os.makedirs(os.path.join(VERIF, "evidence"), exist_ok=True)
     os.makedirs(os.path.join(VERIF, "replays"), exist_ok=True)
+    for f in os.listdir(os.path.join(VERIF, "replays")):  # witnesses of earlier runs of this property are stale
+        if f.startswith(pid + "_"):
+            os.remove(os.path.join(VERIF, "replays", f))
 
     # ---- build
     try:
